@@ -114,7 +114,7 @@ def gen_job(verif_seed, tier, index):
             pre.append([f"res/#{base}.{k}#", f"backup {k} {g.getrandbits(40)}\n"])
     op["pre_files"] = pre
     op["pre_links"] = links
-    op["relpath"] = g.choice([None, None, True, "dotdot"])
+    op["relpath"] = g.choice([None, None, True, "dotdot", "symlink_dotdot"])
     if g.random() < 0.3:
         op["cwd"] = g.choice(["wd", "res"])
     # follow-up operations in the same process
